@@ -144,6 +144,48 @@ ASSUME = {
 }
 
 
+# behaviours (TLC -simulate) replayed on one live handle: (layouts, methods, xffs, horizon, ticks, maxbatch, vals, future, depth)
+SIM_PLAN = {
+    "C01": ("MCLayoutsA", "MethodSum", "XffOne", 10, "Ticks12J", 2, "Vals12", 1, 14),
+    "C02": ("MCLayoutsD", "MethodsAll", "XffSet", 6, "Ticks12", 2, "Vals1", 0, 12),
+    "C03": ("MCLayoutsA", "MethodSum", "XffOne", 8, "Ticks12J", 2, "Vals12", 1, 12),
+    "C05": ("MCLayoutsA", "MethodSum", "XffOne", 8, "Ticks12", 2, "Vals1", 0, 16),
+    "C06": ("MCLayoutsB", "MethodSum", "XffOne", 10, "Ticks12J", 2, "Vals1", 0, 14),
+}
+SIM_NUM = {"quick": 120, "thorough": 3000}
+
+
+def simulate_behaviours(wd, prop, tier, seed):
+    """TLC -simulate writes behaviours as TLA+ text; they are converted to ndjson 'step' lines"""
+    import glob
+    import tlaval
+    lay, meth, xff, hor, ticks, mb, vals, fut, depth = SIM_PLAN[prop]
+    cfg = core_cfg(lay, meth, xff, hor, ticks, mb, vals=vals, withsync=True, future=fut)
+    bdir = os.path.join(wd, "beh")
+    os.makedirs(bdir, exist_ok=True)
+    n = SIM_NUM[tier]
+    nw = 4 if tier == "quick" else NCPU
+    per = max(1, n // nw)
+    res = run_tlc(wd, "MC_Core", cfg, "sim", nw, 7000, None, None,
+                  "file=%s,num=%d" % (os.path.join(bdir, "b"), per), ["-depth", str(depth), "-seed", str(seed)])
+    if res["rc"] != 0 or res["error"] or res["violated"]:
+        raise Broken("TLC simulation failed: %s %s" % (res["error"], res["violated"]))
+    out = os.path.join(wd, "behaviours.ndjson")
+    nb = 0
+    with open(out, "w") as fo:
+        for f in sorted(glob.glob(os.path.join(bdir, "b_*"))):
+            lvl = 0
+            for st in tlaval.behaviour_states(f):
+                lvl += 1
+                if st["op"].get("name") == "init":
+                    continue
+                fo.write(json.dumps({"kind": "step", "lvl": lvl - 1, "cfg": st["cfg"], "now": st["now"], "op": st["op"],
+                                     "ring": st["ring"], "durable": st["durable"]}) + "\n")
+            nb += 1
+    shutil.rmtree(bdir, ignore_errors=True)
+    return out, nb
+
+
 def run_core(prop, tier, seed):
     v = Verdict(prop, tier, seed)
     wd = scratch("wv-%s-" % prop)
@@ -245,6 +287,25 @@ def _run_core(prop, tier, seed, v, wd):
                 if i in (1, 2):
                     cov_samples.append(json.loads(line))
     extra_cov = {}
+    if prop in SIM_PLAN:
+        bf, nb = simulate_behaviours(wd, prop, tier, seed)
+        outj = os.path.join(wd, "paths.json")
+        p = subprocess.run([binp, "core-path", prop, bf, outj], stdout=subprocess.PIPE, stderr=subprocess.STDOUT, text=True, timeout=HARNESS_TIMEOUT)
+        if p.returncode != 0:
+            raise Broken("core-path failed: " + p.stdout[-1500:])
+        rp = json.load(open(outj))
+        if rp["behaviours"] == 0:
+            raise Broken("no behaviour was replayed")
+        for viol in rp["violations"]:
+            v.violation("%s: %s" % (viol["what"], viol["detail"]),
+                        {"kind": "core-path", "prop": prop, "seed": seed, "behaviour": viol["line"], "B": viol["B"], "scale": viol["scale"]}, None)
+        extra_cov.update({"behaviours_replayed_on_a_live_handle": rp["behaviours"], "behaviour_steps": rp["steps"],
+                          "behaviour_steps_compared": rp["compared"]})
+        cov_samples += rp["samples"][:1]
+        replayed_states += 0
+        behaviours_ok = rp["behaviours"]
+    else:
+        behaviours_ok = 0
     if prop == "C05":
         # CLI part: a copy / sum-copy failing before its final Sync leaves an existing destination untouched
         outj = os.path.join(wd, "c05cli.json")
@@ -255,11 +316,11 @@ def _run_core(prop, tier, seed, v, wd):
         r5 = json.load(open(outj))
         for viol in r5["violations"]:
             v.violation("%s: %s" % (viol["what"], viol["detail"]), {"kind": "core-c05cli", "seed": seed, "case": viol["line"]}, None)
-        extra_cov = {"cli_failing_before_sync_executions": r5["executions"]}
+        extra_cov["cli_failing_before_sync_executions"] = r5["executions"]
         cov_samples += r5.get("samples", [])[:1]
     coverage = {
         "states": states, "transitions": transitions,
-        "traces_validated_against_impl": replayed_edges + replayed_states + (traces_total - rejected if ntr else 0),
+        "traces_validated_against_impl": replayed_edges + replayed_states + (traces_total - rejected if ntr else 0) + behaviours_ok,
         "samples": cov_samples[:6],
         "exhaustive": True,
         "tlc_runs": mc_runs,
